@@ -80,6 +80,13 @@ def strategy_(g):
         for _ in range(rnd.randint(1, 3)):
             stages.append({"changes": [[rnd.randrange(len(verts)), rnd.random() < 0.75] for _ in range(rnd.randint(1, 2))], "ff": rnd.random() < 0.4, "k": rnd.choice([1, 1, 2, 3])})
         case["stages"] = stages
+    if mode in ("no-fixed", "only-landmarks-fixed", "diverging", "isolated-free", "all-fixed") and g.boolean():
+        # fault cases also with custom edges that rely on the library's numerical differentiation (which perturbs and restores
+        # vertex poses - also those of fixed vertices - around error evaluations that may be non-finite by then)
+        for e in case["edges"]:
+            if e["t"] not in ("odo", "lm"):
+                e["fl"] = "num"
+                case["meta"]["numeric_custom_edges"] = True
     case["mode"] = mode
     case["iters"] = g.choice([1, 1, 2, 3, 5, 10, 20])
     case["tol"] = g.choice([0.0, 0.0, 1e-6])
@@ -153,6 +160,8 @@ def check(case, ctx):
     GG.classify(case, ctx)
     mode = case["mode"]
     ctx.event("mode:" + mode)
+    if case["meta"].get("numeric_custom_edges"):
+        ctx.event("fault-case-with-numerically-differentiated-custom-edges")
     ff = case["fix_first"]
     fixed = GC.expected_fixed(case, ff)
     fault = mode in ("no-fixed", "only-landmarks-fixed", "diverging", "isolated-free") or (mode == "shared-pose-object" and case["base"] in ("se2", "se3"))
